@@ -15,6 +15,7 @@ CHECK = {
            '{none, stack slot, new_root, root-registered Ref holder, thread-local entry, callee-saved register (r12; gcc -O0 library)} x {forced, threshold-triggered} collection x two allocation orders is built on the real heap '
            'under a fresh collector; after the collection every node the shadow graph reaches from the declared roots must still be registered and read back intact. '
            'states = distinct shapes, transitions = executions. distinct_nontrivial = executions in which some but not all nodes are reachable. '
+           'Collections inside element callbacks (mode=callbacks): a rooted Array/List/Table/Tree whose elements (or keys, or values) have their own constructor, assignment and destructor and each hold the only reference to a leaf; every operation of the kind (pop, pop_at, rem, push, push_at, set, resize, concat, assign, copy) at every position is run once per element callback it makes with a forced collection inside that callback, so the collector sees every intermediate state of the container; afterwards every leaf of a still-contained element must be registered and intact. '
            'Plus container size ladders (every rehash/realloc boundary, grow and shrink) and chain lengths 10^2..10^5/10^6 in forked children. '
            'Histories (allocations, links, deletions, collections in every order) are explored by the C17/C06 state graph, whose oracle also rejects a reclaimed reachable object.'),
   'bounds': {
@@ -34,6 +35,7 @@ CHECK = {
               + shapes('n2reg', 'cfg-gcc-O0', 2, 'prbaltTu', '-g', 1, 'forced') + shapes('n2reg', 'cfg-gcc-O0', 2, 'prbaltTu', '-g', 1, 'threshold')
               + shapes('n2small', 'base', 2, 'pSVHhALP', '-st', 1, 'forced') + shapes('n2small', 'base', 2, 'prSVHhALP', '-sn', 1, 'threshold')
               + shapes('n2smallasan', 'asan', 2, 'pSVHhALP', '-s', 1, 'forced') + shapes('n3small', 'base', 3, 'pSVh', '-s', 4, 'forced')
+              + [R('callbacks', 'base', 'mode=callbacks', 'maxn=4'), R('callbacks-asan', 'asan', 'mode=callbacks', 'maxn=3')]
               + [R('ladder', 'base', 'mode=ladder'), R('ladder-asan', 'asan', 'mode=ladder'), R('chain', 'base', 'mode=chain', 'maxlen=100000')]),
     'thorough': (shapes('n2', 'base', 2, 'prbaltTu', '-snrt', 1, 'forced') + shapes('n2', 'base', 2, 'prbaltTu', '-snrt', 1, 'threshold')
               + shapes('n2asan', 'asan', 2, 'prbaltTu', '-snrt', 2, 'forced')
@@ -43,6 +45,7 @@ CHECK = {
               + shapes('n2small', 'base', 2, 'prbSVHhALP', '-snrt', 2, 'forced') + shapes('n2small', 'base', 2, 'prbSVHhALP', '-snrt', 2, 'threshold')
               + shapes('n2smallasan', 'asan', 2, 'pSVHhALP', '-snrt', 2, 'forced') + shapes('n3small', 'base', 3, 'pSVHhALP', '-s', 16, 'forced')
               + shapes('n3smallthr', 'base', 3, 'pSHAP', '-st', 8, 'threshold')
+              + [R('callbacks', 'base', 'mode=callbacks', 'maxn=7'), R('callbacks-asan', 'asan', 'mode=callbacks', 'maxn=6')]
               + [R('ladder', 'base', 'mode=ladder'), R('ladder-asan', 'asan', 'mode=ladder'), R('chain', 'base', 'mode=chain', 'maxlen=1000000', timeout=3000)]),
   },
 }
